@@ -183,16 +183,16 @@ theorem run_bool (wc : Ctx) (v : Bool) (s : WState) :
   rfl
 
 set_option linter.unusedSimpArgs false in
-/-- a read `o.p` of an object id: one `readProperty` statement through `emit_result` -/
-theorem run_read (wc : Ctx) (o p cls : String) (ci : ClassInfo) (pinfo : PropInfo) (s s' : WState) (op : Operand)
-    (hl : s.locals = [])
+/-- a read `o.p` of an object id that no variable in scope shadows: one `readProperty` statement through `emit_result` -/
+theorem run_read' (wc : Ctx) (o p cls : String) (ci : ClassInfo) (pinfo : PropInfo) (s s' : WState) (op : Operand)
+    (hl : s.locals.get? o = none)
     (h1 : wc.objects.find? (·.1 = o) = some (o, cls)) (h2 : wc.env.findClass cls = some ci)
     (h3 : ci.props.find? (·.name = p) = some pinfo)
     (h : (walkRvalue wc (.member (.ident o) p)).run s = (some op, s')) :
     op = (s.b.emitResult pinfo.ty (.readProperty (.namedObject o cls) pinfo)).1 ∧
     s' = { s with b := (s.b.emitResult pinfo.ty (.readProperty (.namedObject o cls) pinfo)).2 } := by
   rw [walkRvalue, walkExpr, walkExpr] at h
-  simp only [run_bind, processIdentifier, run_getLocals, hl, Locals.get?, List.find?_nil, Option.map_none, Ctx.getRef, h1,
+  simp only [run_bind, processIdentifier, run_getLocals, hl, Ctx.getRef, h1,
     processRef, run_pure, processItemProperty, toConcreteType, Operand.typeDesc, Ctx.classOfType, h2, h3,
     TypeKind.isPointer, interToRvalue, run_getB, visitObjectProperty, ensureConcreteString] at h
   cases hr : pinfo.readable with
@@ -206,6 +206,27 @@ theorem run_read (wc : Ctx) (o p cls : String) (ci : ClassInfo) (pinfo : PropInf
     have : ((consume (Except.error ExprError.unreadableProperty)).run s).1 = none := rfl
     rw [h] at this
     simp at this
+
+/-- a read `o.p` of an object id: one `readProperty` statement through `emit_result` -/
+theorem run_read (wc : Ctx) (o p cls : String) (ci : ClassInfo) (pinfo : PropInfo) (s s' : WState) (op : Operand)
+    (hl : s.locals = [])
+    (h1 : wc.objects.find? (·.1 = o) = some (o, cls)) (h2 : wc.env.findClass cls = some ci)
+    (h3 : ci.props.find? (·.name = p) = some pinfo)
+    (h : (walkRvalue wc (.member (.ident o) p)).run s = (some op, s')) :
+    op = (s.b.emitResult pinfo.ty (.readProperty (.namedObject o cls) pinfo)).1 ∧
+    s' = { s with b := (s.b.emitResult pinfo.ty (.readProperty (.namedObject o cls) pinfo)).2 } :=
+  run_read' wc o p cls ci pinfo s s' op (by rw [hl]; rfl) h1 h2 h3 h
+
+/-- a read of a variable in scope: no statement, the variable's local is the operand -/
+theorem run_var (wc : Ctx) (x : String) (n : Nat) (k : DeclKind) (ty : TypeKind) (s s' : WState) (op : Operand)
+    (hl : s.locals.get? x = some (n, k)) (hty : s.b.code.locals[n]? = some ty)
+    (h : (walkRvalue wc (.ident x)).run s = (some op, s')) : op = .local n ty ∧ s' = s := by
+  rw [walkRvalue, walkExpr] at h
+  simp only [run_bind, processIdentifier, run_getLocals, hl, run_pure, interToRvalue, run_getB, visitLocalRef, hty,
+    run_consume_ok] at h
+  injection h with h1 h2
+  injection h1 with h1
+  exact ⟨h1.symm, h2.symm⟩
 
 /-- an expression statement: the walk of the expression, then `visit_expression_statement` -/
 theorem run_expr_stmt (wc : Ctx) (e : Expr) (s : WState) :
